@@ -27,4 +27,13 @@ PROPS = {
                          "gofacts' recognition of the CalculateWithContext skeleton (fails closed)"],
         "assumptions": ["the hash functions themselves are not modelled: theorems hold for every H"],
     },
+    "C18": {
+        "areas": ["Streamer"],
+        "harness": "stream",
+        "verdict_findings": {"C18_verdict_lines": "line-split-across-chunks"},
+        "trusted_base": ["Model.Streamer (strings.Split on one byte, per-chunk splitting) validated against the real logStreamer through the verif hook",
+                         "gofacts' recognition of Write / Execute / LogStart / LogEnd shapes (fails closed)"],
+        "assumptions": ["kernel pipe buffering only chooses the chunking, over which the theorem quantifies",
+                        "exit status / ordering / Output() / cancellation kind are observed on real child processes (monitors), the Lean part covers the order skeleton"],
+    },
 }
